@@ -36,6 +36,28 @@ QUICK_CONFIG = """features:
 """
 
 
+QUICK_COMPRESSION_CONFIG = """features:
+  versions:
+    - HTTP_VERSION_2
+  protocols:
+    - PROTOCOL_CONNECT
+    - PROTOCOL_GRPC
+  codecs:
+    - CODEC_PROTO
+  compressions:
+    - COMPRESSION_IDENTITY
+    - COMPRESSION_GZIP
+    - COMPRESSION_BR
+    - COMPRESSION_ZSTD
+    - COMPRESSION_DEFLATE
+    - COMPRESSION_SNAPPY
+  supportsTls: false
+  supportsH2c: true
+  supportsConnectGet: true
+  supportsMessageReceiveLimit: true
+"""
+
+
 def build(repo, work, goenv):
     bindir = os.path.join(work, "bin")
     os.makedirs(bindir, exist_ok=True)
@@ -96,6 +118,15 @@ def matrix(unit, work, tier, seed, repo, goenv):
         ("reference/client", ref_conf, "client", "testing/referenceclient-known-failing.txt", "referenceclient"),
         ("grpc/client", "testing/grpc-impls-config.yaml", "client", "testing/grpcclient-known-failing.txt", "grpcclient"),
     ]
+    if tier == "quick":
+        # the reduced matrix above has identity only: a second, small pass runs every suite
+        # under all six compressions (HTTP/2 cleartext, proto codec)
+        comp_conf = os.path.join(work, "quick-compression-config.yaml")
+        open(comp_conf, "w").write(QUICK_COMPRESSION_CONFIG)
+        runs += [
+            ("reference-compressions/server", comp_conf, "server", "testing/referenceserver-known-failing.txt", "referenceserver"),
+            ("reference-compressions/client", comp_conf, "client", "testing/referenceclient-known-failing.txt", "referenceclient"),
+        ]
     only = os.environ.get("VERIF_C01_ONLY")
     rep = {"evaluations": 0, "distinct_nontrivial": 0, "samples": [], "violations": [], "exhaustive": True, "outcomes": {}, "counters": {},
            "rule": "one evaluation = one (config case x embedded test case) permutation executed by the real binaries; all permutations of a run are distinct by name; non-trivial = it ran (has a verdict)",
@@ -186,7 +217,7 @@ CHECK = {
     "manifest": {
         "engine": "MATRIX",
         "technique": "exhaustive enumeration of the finite configuration space with the real binaries (all permutations in the thorough tier, a reduced HTTP/TLS/compression matrix in the quick tier)",
-        "text": "Five runner invocations exactly as the Makefile does (reference server and client with the reference config, gRPC server and client with grpc-impls-config, gRPC server with grpc-web-server-impl-config), each with --trace and its shipped known-failing file: exit 0, zero failed, every computed permutation ran (none 'could not be run'), reference known-failing lists empty. Thorough: every permutation (12,998 + 16,580 + gRPC runs). Quick: all three HTTP versions, TLS without client certs, all protocols and codecs, identity only.",
+        "text": "Five runner invocations exactly as the Makefile does (reference server and client with the reference config, gRPC server and client with grpc-impls-config, gRPC server with grpc-web-server-impl-config), each with --trace and its shipped known-failing file: exit 0, zero failed, every computed permutation ran (none 'could not be run'), reference known-failing lists empty. Thorough: every permutation (12,998 + 16,580 + gRPC runs). Quick: all three HTTP versions, TLS without client certs, all protocols and codecs, identity only, plus every suite under all six compressions over cleartext HTTP/2 with the proto codec.",
         "note": "Timing-sensitive cases are re-run in isolation before being reported; Node-based grpc-web client excluded.",
         "design_ref": "DESIGN.md §2.4, §4 C01",
     },
